@@ -494,3 +494,8 @@ def obligations():
     return _c08_obl5() + [Ob('O8.5-closure-rebind-3', 'every captured variable is read back from the environment field it was stored in (closures using 3 variables)', ob_closure_rebind, ('quick', 'thorough'), 5, dict(nuses=3)),
                           Ob('O8.5-closure-rebind-4', 'same, 4 uses', ob_closure_rebind, ('thorough',), 20, dict(nuses=4)),
                           Ob('O8.6-tuple-closure-type', 'a tuple holding closures at any depth gets the lifted component types', ob_tuple_closure_type, ('quick', 'thorough'), 5, {})]
+
+_obl_models = obligations
+def obligations():
+    from props import selftest_ob
+    return selftest_ob.obligations_models('O8.0') + _obl_models()
